@@ -993,11 +993,29 @@ def main(cid):
                           "zones": round(t_zones - t_built, 1), "rest": round(time.time() - t_zones, 1)},
         "partial_theorems": [t for t in props["theorems"] if t.endswith("_partial")],
         "refuted_theorems": [t for t in props["theorems"] if t.endswith("_refuted")],
+        "tie_only_theorems": {
+            "names": [t for t in props["theorems"] if t.endswith("_pinned_fragments_unchanged")
+                      or t.endswith("_gen_ttinfo_before") or t.endswith("_gen_datetime_to_timestamp")],
+            "note": "proved by reflexivity on constants / literal text the (trusted) generator wrote after a shape or "
+                    "AST-fingerprint check of the source: they tie the hand model to the source text, they prove nothing "
+                    "about behaviour; obligations_substantive excludes them"},
+        "obligations_substantive": len([t for t in props["theorems"] if not (t.endswith("_pinned_fragments_unchanged")
+                                        or t.endswith("_gen_ttinfo_before") or t.endswith("_gen_datetime_to_timestamp"))]),
         "theorem_guards": {
+            "scope": "property-level theorems exist for tzfile and the fixed zones; the generic _tzinfo layer (iCalendar zones) "
+                     "has conditional theorems (C04_generic_*, instantiated for piecewise zones with constant standard "
+                     "offset); tzlocal (overrides is_ambiguous), tzrange / tzstr (own fromutc; C08 proves their POSIX "
+                     "semantics) have NO C04/C05 theorem here: differential only",
+            "after the last transition": "C04's 'offset in force' is stated against zone_of d (ttinfo_std from the last "
+                                         "transition on); the raw data's last type is compared by the check and differs on "
+                                         "zones ending in DST: finding F-C04-after-last-transition / F-C06-last-transition",
             "tzfile theorems": "good d = true (executable decoder invariant, proved for every decoded file with >= 1 "
                                "type: C06_decoder_invariant; also evaluated on every zone by this run) and "
-                               "wf_zone (zone_of d) = true (executable; evaluated on every zone by this run, zones "
-                               "outside it are listed under zones_outside_wf_zone)",
+                               "wf_zone (zone_of d) = true (executable: strictly increasing instants, every regime at least as "
+                               "long as the repeated intervals at its two ends together and as the gap at either end, "
+                               "|offset| < 24 h; evaluated on every zone by this run; outside it failures at wall times with "
+                               "<= 2 pre-images are REPORTED through finding F-C0x-short-regime (refuted witness "
+                               "C05_short_regime_refuted), with >= 3 pre-images counted as unsatisfiable)",
             "C05_resolve_imaginary_gap_width": "none beyond good/wf_zone (after fix 7f58098; before it the +-24 h probe "
                                                "forced the hypothesis `isolated`, still reported per gap as "
                                                "gaps_outside_isolation_hypothesis for information)",
